@@ -264,7 +264,7 @@ def _zk_read_local(func, text):
 
 def check(ctx):
     index = ctx.index
-    if ctx.tier == 'thorough':
+    if ctx.tier in ('quick', 'thorough'):   # whole-package clause, cheap enough for every run
         _writers_package(ctx)
     nz = N.Normaliser()
     svc = index.module(SVC).classes.get('PresenceResourceService')
@@ -287,6 +287,48 @@ def check(ctx):
                        'presence nodes are created ephemeral=True')
     ctx.require(n >= 2, 'zkutils.create calls for presence nodes',
         rule='C17.1')
+    # zkutils.create reports a node that exists: the service takes that
+    # error as the one occasion to look at the owner of the node (a create
+    # that answers "done" for a node with the same content hides a node of
+    # another session)
+    zc = index.module('treadmill.zkutils').functions.get('create')
+    ctx.require(zc is not None, 'zkutils.create', rule='C17.2')
+    swallow = [h for h in K.walk_no_nested(zc.raw)
+               if isinstance(h, ast.ExceptHandler) and (
+                   h.type is None or 'NodeExists' in N.txt(h.type) or
+                   N.txt(h.type).endswith('Exception') or
+                   'KazooException' in N.txt(h.type))]
+    ctx.ob('C17.2', zc, swallow[0] if swallow else None, not swallow,
+           'zkutils.create lets NodeExistsError escape to its caller',
+           construct='create reports an existing node')
+    # the nodes of a container are registered through the routine that waits
+    # for a previous owner (_create_ephemeral_with_retry), never by a write
+    # that takes over whatever is there
+    ep_cls = pres.classes.get('EndpointPresence')
+    if ep_cls is not None:
+        for func in ep_cls.live_methods():
+            if not func.name.startswith('register'):
+                continue
+            for call in K.calls(func.node):
+                text = K.callee_text(call)
+                takes_over = text in (
+                    'zkutils.put', 'zkutils.update', 'zkutils.ensure_exists',
+                    'zkutils.create') or (
+                        K.is_meth(call, 'set', 'create', 'ensure_path') and
+                        (K.recv_text(call) or '').endswith('zkclient'))
+                if takes_over:
+                    ctx.fail('C17.1', func, call,
+                             '%s writes a presence node through %s: a node '
+                             'another live session owns is overwritten '
+                             'instead of waited for' % (func.name, text),
+                             construct='register through the waiting create')
+            creates = [c for c in K.calls(func.node)
+                       if K.callee_text(c) == '_create_ephemeral_with_retry']
+            if creates:
+                ctx.ok('C17.1', func, creates[0],
+                       '%s registers through _create_ephemeral_with_retry'
+                       % func.name,
+                       construct='register through the waiting create')
     # the zkutils routines the service writes through create a node only
     # where the caller's ephemeral flag reaches the client (zkutils.create);
     # a refresh of an existing node (zkutils.update) creates nothing - a node
